@@ -34,3 +34,5 @@ def check(ctx):
         if f.crate == "fastrace_futures" and "InSpan<T>" in f.path and f.path.rsplit("::", 1)[1] in ("poll_next", "poll_close"):
             adapters.check_adapter(ctx, facts, f, "R5-", want_scope=False, want_finish=False, kind="span"); n += 1
     ctx.floor("R5", "adapters", n, 3, "adapter methods that finish a span")
+    adapters.rule_drop_order(ctx, facts, "R5", "fastrace::future::InSpan")
+    adapters.rule_drop_order(ctx, facts, "R5", "fastrace_futures::InSpan")
